@@ -619,4 +619,15 @@ def no_exact_coordinates(repo: Repo) -> RuleRun:
 no_exact_coordinates.rule_id = "C05.NO-EXACT-COORDINATES"
 
 
-RULES = [lookup_before_create, dense_index, tolerance_siblings, eq_hash, slave_only, corner_patches, add_scenarios, merge_state_survives, no_stale_lazy_cache, merge_roles, patch_follows_face, labels_private, no_exact_coordinates]
+def delete_skip(repo: Repo) -> RuleRun:
+    """'the vertex table holds exactly the corners of the blocks': a deleted operation creates no vertices either - the skip comes before anything is made for it. Same rule as C06.DELETE-SKIP."""
+    from ..report import rebrand
+    from . import c06
+
+    return rebrand(c06.delete_skip(repo), PROP, "C05.DELETE-SKIP")
+
+
+delete_skip.rule_id = "C05.DELETE-SKIP"
+
+
+RULES = [lookup_before_create, dense_index, tolerance_siblings, eq_hash, slave_only, corner_patches, add_scenarios, merge_state_survives, no_stale_lazy_cache, merge_roles, patch_follows_face, labels_private, no_exact_coordinates, delete_skip]
